@@ -17,9 +17,16 @@ pub fn run_case(toks: &[&str], em: &mut Emitter) {
             let p = buffer.as_mut_ptr().add(buflen);
             for k in 0..GUARD { p.add(k).write(CANARY); }
         }
+        // Raw 32 bpp data arrives bottom-up and decompress() turns it into exactly bw x bh
+        // top-down pixels (or refuses shorter data): the data rows are laid out so that image
+        // pixel k (row-major, top-down) carries the value k; `imgpix` = pixels supplied,
+        // trailing filler only when the image is complete.
         let mut data: Vec<u8> = Vec::with_capacity(imgpix * 4 + extra);
-        for k in 0..imgpix { data.extend_from_slice(&(0x1A00_0000u32 | k as u32).to_le_bytes()); }
-        for _ in 0..extra { data.push(0xEE); }
+        for p in 0..imgpix {
+            let k = if bw > 0 && p < bw * bh { (bh - 1 - p / bw) * bw + p % bw } else { p };
+            data.extend_from_slice(&(0x1A00_0000u32 | k as u32).to_le_bytes());
+        }
+        if imgpix >= bw * bh { for _ in 0..extra { data.push(0xEE); } }
         let ev = BitmapEvent {
             dest_left: left as u16, dest_top: top as u16, dest_right: right as u16, dest_bottom: bottom as u16,
             width: bw as u16, height: bh as u16, bpp: 32, is_compress: false, data,
@@ -35,7 +42,7 @@ pub fn run_case(toks: &[&str], em: &mut Emitter) {
         let mut foreign = false;
         for (j, c) in buffer.iter().enumerate() {
             if *c == (0xB000_0000 | j as u32) { cells.push(".".into()); }
-            else if *c & 0xFF00_0000 == 0x1A00_0000 && ((*c & 0xFF_FFFF) as usize) < imgpix { cells.push(format!("{}", c & 0xFF_FFFF)); changed += 1; }
+            else if *c & 0xFF00_0000 == 0x1A00_0000 && ((*c & 0xFF_FFFF) as usize) < bw * bh { cells.push(format!("{}", c & 0xFF_FFFF)); changed += 1; }
             else { cells.push(format!("?{:08x}", c)); foreign = true; }
         }
         let mut o = Obs::new(format!("{} {}", if r.is_ok() { "ok" } else { "E" }, cells.join(","))).nt(changed > 0);
